@@ -374,10 +374,16 @@ class Gen:
             return [("IF", self.cond(bias=0.5, const=0.1), self.block(ctx, depth - 1, subs, rng.randint(1, 2), in_block, in_loop, tdepth),
                      self.block(ctx, depth - 1, subs, rng.randint(0, 1), in_block, in_loop, tdepth))]
         if k == "TRY":
-            body = self.block(ctx, depth - 1, subs, rng.randint(1, 3), True, False, tdepth + 1)
+            body = self.block(ctx, depth - 1, subs, rng.randint(1, 3), True, in_loop, tdepth + 1)
             hs = []
             for _ in range(rng.randint(1, 3)):
-                hs.append((self.cond(bias=0.3, const=0.05), self.block(ctx, depth - 1, subs, rng.randint(1, 2), True, False, tdepth + 1)))
+                # a handler that finishes without yielding while its condition stays true would spin for ever:
+                # handlers start with take/wait, or consist of one concluding statement
+                if rng.random() < 0.25:
+                    hb = [(rng.choice(["AB", "AB", "RT"] + (["BR", "CO"] if in_loop else [])),)]
+                else:
+                    hb = [self.first_yield(ctx)] + self.block(ctx, depth - 1, subs, rng.randint(0, 2), True, in_loop, tdepth + 1)
+                hs.append((self.cond(bias=0.3, const=0.05), hb))
             return [("TRY", body, hs)]
         if k in ("AB", "BR", "CO", "RT"):
             return [(k,)]
